@@ -178,7 +178,26 @@ pub fn verif_root() -> String {
     std::env::var("VERIF_ROOT").unwrap_or_else(|_| "/verif".to_string())
 }
 
-pub fn run_property(def: &PropDef, ctx: &Ctx, only_part: Option<&str>, scale: f64) -> i32 {
+pub const BENCH_BUILD: bool = cfg!(feature = "benchmark");
+
+/// Parts that are also run in the build with the repository's `benchmark` feature on.
+pub fn runs_in_bench(prop: &str, part: &str) -> bool {
+    match prop {
+        "C11" => true,
+        "C15" => part.starts_with("hostile"),
+        _ => false,
+    }
+}
+
+pub fn build_name() -> &'static str {
+    if BENCH_BUILD {
+        "benchmark"
+    } else {
+        "default"
+    }
+}
+
+pub fn run_property(def: &PropDef, ctx: &Ctx, only_part: Option<&str>, scale: f64, evidence_out: Option<&str>) -> i32 {
     let t0 = Instant::now();
     let root = verif_root();
     let known = load_known_findings(&format!("{}/known_findings.json", root));
@@ -233,6 +252,9 @@ pub fn run_property(def: &PropDef, ctx: &Ctx, only_part: Option<&str>, scale: f6
             if p != part.name {
                 continue;
             }
+        }
+        if BENCH_BUILD && !runs_in_bench(def.id, part.name) {
+            continue;
         }
         let total = ((match ctx.tier {
             Tier::Quick => part.quick,
@@ -377,10 +399,10 @@ pub fn run_property(def: &PropDef, ctx: &Ctx, only_part: Option<&str>, scale: f6
             all_distinct.insert(d ^ crate::tape::fnv(part.name.as_bytes()));
         }
         for (k, v) in &s.classes {
-            *all_classes.entry(format!("{}:{}", part.name, k)).or_insert(0) += v;
+            *all_classes.entry(format!("{}{}:{}", part.name, if BENCH_BUILD { "[benchmark]" } else { "" }, k)).or_insert(0) += v;
         }
         for smp in &s.samples {
-            all_samples.push(json!({"part": part.name, "case": smp}));
+            all_samples.push(json!({"part": part.name, "build": build_name(), "case": smp}));
         }
         for (k, (n, d)) in &s.known_hits {
             let e = all_known.entry(k.clone()).or_insert((0, d.clone()));
@@ -388,6 +410,7 @@ pub fn run_property(def: &PropDef, ctx: &Ctx, only_part: Option<&str>, scale: f6
         }
         part_reports.push(json!({
             "part": part.name,
+            "build": build_name(),
             "planned_cases": total,
             "evaluations": s.evaluations,
             "nontrivial": s.nontrivial,
@@ -415,11 +438,12 @@ pub fn run_property(def: &PropDef, ctx: &Ctx, only_part: Option<&str>, scale: f6
     if let Some(f) = &fail {
         violations = 1;
         let h = fnv_case(&f.case);
-        let path = format!("{}/replays/{}-{:016x}.json", root, def.id, h);
+        let path = format!("{}/replays/{}-{}{:016x}.json", root, def.id, if BENCH_BUILD { "bench-" } else { "" }, h);
         let _ = std::fs::create_dir_all(format!("{}/replays", root));
         let doc = json!({
             "property": def.id,
             "part": f.part,
+            "build": build_name(),
             "seed": ctx.seed,
             "signature": f.violation.signature,
             "detail": f.violation.detail,
@@ -461,7 +485,9 @@ pub fn run_property(def: &PropDef, ctx: &Ctx, only_part: Option<&str>, scale: f6
         "wall_s": t0.elapsed().as_secs_f64(),
         "violations": violations,
     });
-    if only_part.is_none() || std::env::var("VERIF_WRITE_EVIDENCE").is_ok() {
+    if let Some(path) = evidence_out {
+        std::fs::write(path, serde_json::to_string_pretty(&evidence).unwrap()).expect("write evidence");
+    } else if only_part.is_none() || std::env::var("VERIF_WRITE_EVIDENCE").is_ok() {
         let _ = std::fs::create_dir_all(format!("{}/evidence", root));
         let path = format!("{}/evidence/{}.json", root, def.id);
         std::fs::write(&path, serde_json::to_string_pretty(&evidence).unwrap()).expect("write evidence");
@@ -533,4 +559,46 @@ pub fn replay(def: &PropDef, path: &str, ctx: &Ctx) -> i32 {
         println!("replay did not violate the property");
         0
     }
+}
+
+
+/// Merge the evidence written by the default build and by the benchmark-feature build of one check.
+pub fn merge_evidence(id: &str, a: &str, b: &str) -> i32 {
+    let load = |p: &str| -> Option<Value> { std::fs::read_to_string(p).ok().and_then(|t| serde_json::from_str(&t).ok()) };
+    let (ea, eb) = match (load(a), load(b)) {
+        (Some(x), Some(y)) => (x, y),
+        (Some(x), None) => (x.clone(), json!({"coverage": {"evaluations": 0, "distinct_nontrivial": 0, "samples": [], "classes": {}, "parts": []}, "wall_s": 0.0, "violations": 0})),
+        _ => {
+            eprintln!("merge: cannot read {}", a);
+            return 2;
+        }
+    };
+    let mut out = ea.clone();
+    let ca = &ea["coverage"];
+    let cb = &eb["coverage"];
+    let sum = |k: &str| ca[k].as_u64().unwrap_or(0) + cb[k].as_u64().unwrap_or(0);
+    let mut samples = ca["samples"].as_array().cloned().unwrap_or_default();
+    samples.extend(cb["samples"].as_array().cloned().unwrap_or_default());
+    let mut classes = ca["classes"].as_object().cloned().unwrap_or_default();
+    for (k, v) in cb["classes"].as_object().cloned().unwrap_or_default() {
+        classes.insert(k, v);
+    }
+    let mut parts = ca["parts"].as_array().cloned().unwrap_or_default();
+    parts.extend(cb["parts"].as_array().cloned().unwrap_or_default());
+    let mut known = ca["known_findings_excluded"].as_array().cloned().unwrap_or_default();
+    known.extend(cb["known_findings_excluded"].as_array().cloned().unwrap_or_default());
+    out["coverage"]["evaluations"] = json!(sum("evaluations"));
+    out["coverage"]["distinct_nontrivial"] = json!(sum("distinct_nontrivial"));
+    out["coverage"]["samples"] = json!(samples);
+    out["coverage"]["classes"] = json!(classes);
+    out["coverage"]["parts"] = json!(parts);
+    out["coverage"]["known_findings_excluded"] = json!(known);
+    out["coverage"]["builds"] = json!(["default", "benchmark feature"]);
+    out["coverage"]["budget_exhausted"] = json!(ca["budget_exhausted"].as_bool().unwrap_or(false) || cb["budget_exhausted"].as_bool().unwrap_or(false));
+    out["wall_s"] = json!(ea["wall_s"].as_f64().unwrap_or(0.0) + eb["wall_s"].as_f64().unwrap_or(0.0));
+    out["violations"] = json!(ea["violations"].as_i64().unwrap_or(0) + eb["violations"].as_i64().unwrap_or(0));
+    let root = verif_root();
+    let _ = std::fs::create_dir_all(format!("{}/evidence", root));
+    std::fs::write(format!("{}/evidence/{}.json", root, id), serde_json::to_string_pretty(&out).unwrap()).expect("write evidence");
+    0
 }
